@@ -326,16 +326,28 @@ theorem own_result_read_partial (s : St) (j : Nat) (e : Exec) (c : Copy) (st : S
       hpos, hvis, decide_true, if_true, lookup_append_fresh _ _ _ _ _ hfresh, record, hcont]
     exact ⟨_, rfl⟩
 
-/-- creation pre-steps of one copy carry distinct identifiers as long as the copy's own results grew in
-between (which the execution of the root node after a successful pre-step provides).
-PARTIAL: a pre-step repeated with unchanged own results (pre-step failed, root node not run) repeats its
-identifier and then reads the stale record — see the witness below. -/
-theorem pre_uids_distinct_partial (c1 c2 : Copy) (hp : c1.prePfx = c2.prePfx)
-    (hlen : c1.results.length ≠ c2.results.length) :
-    uidOf c1.prePfx c1.results.length ≠ uidOf c2.prePfx c2.results.length := by
-  intro h; rw [hp] at h; exact hlen (uidOf_inj _ h)
+/-- Creation attempts (`traverse_terminal_node`, /repo ≥ 7ba7970) — along ANY sequence of events, in
+particular any number of creation attempts of one object root copy with any outcomes of the pre-step
+(acceptable, failing, late, never reported), interleaved with executions, replays and creation attempts of
+the other copies — the (name, uid) pairs of all pre-steps run are pairwise distinct.  `PreNamesInj`: the
+pre-nodes of different copies (different workers) have different names.  Invariant `PreInv`: every attempt
+leaves the copy with at least one more own result than its pre-step was started with (the main execution's
+placeholder on success, the recorded failure otherwise). -/
+theorem pre_uids_distinct (s0 : St) (evs : List Event) (h0 : s0.preIssued = []) (hn : PreNamesInj s0.copies) :
+    ((run s0 evs).1.preIssued.map (fun e => (e.name, e.uid))).Nodup := by
+  have hinv : PreInv s0 := ⟨by simp [h0], by simp [h0]⟩
+  apply pre_ids_nodup_of_preInv (run_preInv s0 evs hinv)
+  unfold PreNamesInj; rw [preStatics_run]; exact hn
 
-
+/-- one creation attempt, whatever its outcome: either it is not enabled / changes nothing of the ghost
+list, or it is recorded with the copy's current own result count as retry counter and the copy ends up
+with exactly one more own result -/
+theorem create_counts (s : St) (i : Nat) (o : Outcome) :
+    (createStep s i o).1.preIssued = s.preIssued ∨
+    ∃ c, s.copies[i]? = some c ∧
+      (createStep s i o).1.preIssued =
+        { copy := i, k := c.results.length, name := c.preName, uid := uidOf c.prePfx c.results.length } :: s.preIssued ∧
+      lenAt (createStep s i o).1.copies i = some (c.results.length + 1) := createStep_spec s i o
 
 /-! ## 5. The verdict part of `run_suite` -/
 
@@ -425,10 +437,36 @@ example : ((run classEx [.start 0, .start 1, .finish 0 (.reported "FAIL" 1 0), .
     [("t.nets.localhost.net2", "1r3"), ("t.nets.localhost.net1", "1r2"), ("t.nets.localhost.net2", "1r1"),
      ("t.nets.localhost.net1", "1")] := by decide
 
-/-- WITNESS (boundary of `pre_uids_distinct_partial`): a pre-step that fails leaves the root node without a
-result; repeated, it carries the same identifier and reads the stale FAIL although it reported PASS -/
-example : (run classEx [.pre 0 (.reported "FAIL" 1 0), .pre 0 (.reported "PASS" 1 0)]).2.map
-      (fun o => match o with | .preRun _ uid _ (some f) st => (uid, f.status, st) | _ => ("", "", "")) =
+example : PreNamesInj classEx.copies := by
+  intro i j p q hp hq h
+  match i, j with
+  | 0, 0 => rfl
+  | 1, 1 => rfl
+  | 0, 1 => simp [preStatics, classEx] at hp hq; rw [← hp, ← hq] at h; simp at h
+  | 1, 0 => simp [preStatics, classEx] at hp hq; rw [← hp, ← hq] at h; simp at h
+  | 0, j + 2 => simp [preStatics, classEx] at hq
+  | 1, j + 2 => simp [preStatics, classEx] at hq
+  | i + 2, _ => simp [preStatics, classEx] at hp
+
+/-- three creation attempts of copy 0 (failed, never reported, passed), one of copy 1 in between: distinct
+pre-step identifiers `0`, `0r1`, `0r2`, each attempt reads its own result, and the main execution starts
+after the successful one -/
+example : (run classEx [.create 0 (.reported "FAIL" 1 0), .create 1 (.reported "ERROR" 1 0), .create 0 .never,
+      .create 0 (.reported "PASS" 1 0)]).2.map
+      (fun o => match o with
+        | .created p _ f st m => (p.uid, (f.map (·.status)).getD "-", st, (m.map (·.uid)).getD "-")
+        | _ => ("", "", "", "")) =
+    [("0", "FAIL", "fail", "-"), ("0", "ERROR", "error", "-"), ("0r1", "-", "error", "-"),
+     ("0r2", "PASS", "pass", "1r3")] := by decide
+
+/-- REGRESSION WITNESS (behaviour before /repo commit 7ba7970, `preStepOld`): a pre-step that fails left the
+root node without a result; repeated, it carried the same identifier and read the stale FAIL although it
+reported PASS -/
+example :
+    let r1 := preStepOld classEx 0 (.reported "FAIL" 1 0)
+    let r2 := preStepOld r1.1 0 (.reported "PASS" 1 0)
+    [r1.2, r2.2].map (fun o => match o with
+        | .created p _ (some f) st _ => (p.uid, f.status, st) | _ => ("", "", "")) =
     [("0", "FAIL", "fail"), ("0", "FAIL", "fail")] := by decide
 
 end I2N.Props.C10
